@@ -222,6 +222,7 @@ func main() {
 		if *tier == "thorough" && *variant == "" && !*noEvidence {
 			for _, p := range props {
 				sweepVariants(root, *repo, p)
+				sweepPinned(root, *repo, p, known)
 			}
 		}
 	}()
